@@ -101,6 +101,30 @@ Theorem C01_grad_correct_selfCoordNum : forall co e r0 n m g1 (s : SYS),
 Proof. exact cvc_grad_correct_selfCoordNum. Qed.
 Print Assumptions C01_grad_correct_selfCoordNum.
 
+Theorem C01_grad_correct_coordNum_group2CenterOnly : forall co e r0 n m g1 g2 (s : SYS),
+  grp_ok0 s g1 -> grp_ok s g2 -> r0 <> 0 -> (1 <= n)%nat -> (1 <= m)%nat ->
+  pairs_ok r0 (gd_pos (gdata_of Rops s g1)) [com_of s g2] ->
+  cvc_grad_correct None (mkCvc co e (KCoordNum r0 n m true) [g1; g2]) s.
+Proof. exact cvc_grad_correct_coordNum_g2c. Qed.
+Print Assumptions C01_grad_correct_coordNum_group2CenterOnly.
+
+Theorem C01_grad_correct_dipoleMagnitude : forall cell co e ids c fit (s : SYS),
+  grp_ok s (GAtoms ids c fit true) ->
+  v3norm2 Rops (dipole Rops (gdata_of Rops s (GAtoms ids c fit true)) (com_of s (GAtoms ids c fit true))) <> 0 ->   (* non-zero dipole *)
+  cvc_grad_correct cell (mkCvc co e KDipoleMagnitude [GAtoms ids c fit true]) s.
+Proof. exact cvc_grad_correct_dipoleMagnitude. Qed.
+Print Assumptions C01_grad_correct_dipoleMagnitude.
+
+Theorem C01_grad_correct_dipoleAngle : forall cell pbc co e ids c fit g2 g3 (s : SYS),
+  grp_ok s (GAtoms ids c fit true) -> grp_ok s g2 -> grp_ok s g3 -> plain pbc cell ->
+  let g1 := GAtoms ids c fit true in
+  let r21 := dipole Rops (gdata_of Rops s g1) (com_of s g1) in
+  let r23 := v3sub Rops (com_of s g3) (com_of s g2) in
+  v3norm2 Rops r21 <> 0 -> v3norm2 Rops r23 <> 0 -> -1 < cosang r21 r23 < 1 ->
+  cvc_grad_correct cell (mkCvc co e (KDipoleAngle pbc) [GAtoms ids c fit true; g2; g3]) s.
+Proof. exact cvc_grad_correct_dipoleAngle. Qed.
+Print Assumptions C01_grad_correct_dipoleAngle.
+
 Theorem C01_grad_correct_inertia : forall cell co e ids (s : SYS),
   ids_ok s ids -> ids <> [] ->
   cvc_grad_correct cell (mkCvc co e KInertia [self_centred ids]) s.
